@@ -2145,6 +2145,11 @@ func (x *Exec) checkExit(p *Path, res []Val, panicked bool) {
 	}
 	fc := x.fc
 	if fc == nil {
+		// no contract: the locks taken must still be released on every exit (C09 roots)
+		for k := range p.locks {
+			parts := strings.Split(k, "\x00")
+			x.oblige(p, "lock", "released_at_exit", "false", []string{"C09"}, "lock "+parts[len(parts)-1]+" still held at exit")
+		}
 		return
 	}
 	vars := x.withResults(fc, x.params, res)
